@@ -1,6 +1,317 @@
-import TlxVerif.Model.C13DAry
+/-
+C13 — the heaps always surface a minimum element and track membership/size.
+
+Part 1 (this section): `DAryHeap`.  For every arity `d ≥ 1` and every comparator that is a strict
+weak order (`WeakOrd`: the harness' external priority tables are of this kind), on the model
+`Model/C13DAry.lean` (the transliteration of `sift_up`, `sift_down`, `heapify`, `push`, `pop`,
+`build_heap`, `update_all`):
+  * push / pop / build_heap / update_all establish resp. preserve the heap order,
+  * they change the stored multiset exactly as a priority queue does (`Perm` statements),
+  * the top of a heap in heap order is not greater than any stored element,
+  * for every history of push/pop/build/update_all(with a NEW comparator)/clear the heap stays in
+    heap order w.r.t. the current comparator and holds the reference multiset; every pop removes
+    a minimum; draining yields the stored multiset in non-decreasing order.
+-/
+import TlxVerif.Proofs.C13DAry
 import TlxVerif.Model.C13Addr
 import TlxVerif.Model.C13Radix
 namespace TlxVerif.C13
-theorem parent_lt_again {d k : Nat} (hk : 0 < k) : parent d k < k := parent_lt hk
+
+/-- heap order of `heap_` (interface level) -/
+def HeapA (lt : Nat → Nat → Bool) (d : Nat) (h : Array Nat) : Prop :=
+  HeapOrd lt d (n := h.size) ⟨h, rfl⟩
+
+theorem heapA_toArray {lt : Nat → Nat → Bool} {d n : Nat} (v : Vector Nat n) :
+    HeapA lt d v.toArray ↔ HeapOrd lt d v := by
+  rcases v with ⟨arr, rfl⟩
+  exact Iff.rfl
+
+/-- `sift_up` of the last slot of an array whose other slots are in heap order -/
+theorem siftUp_last {lt : Nat → Nat → Bool} (wo : WeakOrd lt) (d m : Nat) (a : Vector Nat (m + 1))
+    (h : ∀ i (hi : i < m), 0 < i → lt a[i] (atParent d a i (by omega)) = false) :
+    HeapOrd lt d (siftUp lt d a m (Nat.lt_succ_self _)) ∧ (siftUp lt d a m (Nat.lt_succ_self _)).Perm a := by
+  unfold siftUp
+  have hperm := siftUpFrom_perm lt d a[m] a m (Nat.lt_succ_self _)
+  rw [set_self] at hperm
+  refine ⟨?_, hperm⟩
+  apply siftUpFrom_heap wo
+  rw [set_self]
+  constructor
+  · intro i hi hi0 hik
+    exact h i (by omega) hi0
+  · intro c hc hc0 hpc
+    have := @parent_lt d c hc0
+    omega
+
+/-- **push** keeps the heap order and adds exactly the new key -/
+theorem push_heap {lt : Nat → Nat → Bool} (wo : WeakOrd lt) (d : Nat) (h : Array Nat) (key : Nat)
+    (hh : HeapA lt d h) :
+    HeapA lt d (push lt d h key) ∧ (push lt d h key).Perm (h.push key) := by
+  unfold push
+  have hs := siftUp_last wo d h.size ⟨h.push key, by simp⟩ (by
+    intro i hi hi0
+    have hpi : parent d i < i := parent_lt hi0
+    have := hh i hi hi0
+    simp only [atParent, Vector.getElem_mk] at this ⊢
+    rw [Array.getElem_push_lt (by omega), Array.getElem_push_lt (by omega)]
+    exact this)
+  exact ⟨(heapA_toArray _).mpr hs.1, Vector.perm_iff_toArray_perm.mp hs.2⟩
+
+
+/-- `sift_down(0)` of an array that is in heap order below the root's children -/
+theorem siftDown_root {lt : Nat → Nat → Bool} (wo : WeakOrd lt) (d : Nat) (hd : 0 < d) {m : Nat} (a : Vector Nat m)
+    (hm : 0 < m)
+    (h : ∀ i (hi : i < m), 0 < i → parent d i ≠ 0 → lt a[i] (atParent d a i hi) = false) :
+    HeapOrd lt d (siftDown lt d hd a 0 hm) ∧ (siftDown lt d hd a 0 hm).Perm a := by
+  unfold siftDown
+  have hperm := siftDownFrom_perm lt d hd a[0] a 0 hm
+  rw [set_self] at hperm
+  refine ⟨?_, hperm⟩
+  rw [← heapFrom_zero]
+  apply siftDownFrom_heap wo
+  rw [set_self]
+  exact ⟨Nat.le_refl _, fun i hi hi0 _ hp => h i hi hi0 hp, fun h0 => absurd h0 (Nat.lt_irrefl 0)⟩
+
+theorem array_eq_pop_push (a : Array Nat) (h : 0 < a.size) : a = a.pop.push (a[a.size - 1]'(by omega)) := by
+  apply Array.ext
+  · simp; omega
+  · intro i h1 h2
+    by_cases hi : i < a.size - 1
+    · rw [Array.getElem_push_lt (by simpa using hi)]; simp
+    · have : i = a.size - 1 := by omega
+      subst this
+      simp [Array.getElem_push]
+
+theorem pop_aux {lt : Nat → Nat → Bool} (wo : WeakOrd lt) (d : Nat) (hd : 0 < d) (sw h : Array Nat) (t : Nat)
+    (hperm : (sw.push t).Perm h)
+    (hsw : ∀ i (hi : i < sw.size), 0 < i → parent d i ≠ 0 →
+      lt sw[i] (sw[parent d i]'(Nat.lt_of_le_of_lt (parent_le d i) hi)) = false) :
+    ∃ h', (if hs : 0 < sw.size then some (siftDown lt d hd (n := sw.size) ⟨sw, rfl⟩ 0 hs).toArray else some sw) = some h' ∧
+      HeapA lt d h' ∧ (h'.push t).Perm h := by
+  split
+  · rename_i hs
+    have hs2 := siftDown_root wo d hd (⟨sw, rfl⟩ : Vector Nat sw.size) hs (by
+      intro i hi hi0 hp
+      simpa [atParent] using hsw i hi hi0 hp)
+    refine ⟨_, rfl, (heapA_toArray _).mpr hs2.1, ?_⟩
+    have h1 : (siftDown lt d hd (⟨sw, rfl⟩ : Vector Nat sw.size) 0 hs).toArray.Perm sw :=
+      Vector.perm_iff_toArray_perm.mp hs2.2
+    exact (Array.Perm.push t h1).trans hperm
+  · rename_i hs
+    exact ⟨sw, rfl, fun i hi => by omega, hperm⟩
+
+/-- **pop** removes the top, keeps the heap order and keeps every other element -/
+theorem pop_heap {lt : Nat → Nat → Bool} (wo : WeakOrd lt) (d : Nat) (hd : 0 < d) (h : Array Nat)
+    (hh : HeapA lt d h) (hne : 0 < h.size) :
+    ∃ h', pop lt d hd h = some h' ∧ HeapA lt d h' ∧ (h'.push h[0]).Perm h := by
+  unfold pop
+  simp only [hne, dite_true]
+  have hswp : (h.swap 0 (h.size - 1) hne (by omega)).Perm h := Array.swap_perm hne (by omega)
+  have hlast : (h.swap 0 (h.size - 1) hne (by omega))[(h.swap 0 (h.size - 1) hne (by omega)).size - 1]'(by simp; omega)
+      = h[0] := by simp [Array.getElem_swap]
+  have hpp := array_eq_pop_push (h.swap 0 (h.size - 1) hne (by omega)) (by simpa using hne)
+  rw [hlast] at hpp
+  apply pop_aux wo d hd _ h h[0] (by rw [← hpp]; exact hswp)
+  intro i hi hi0 hp
+  have hi' : i < h.size - 1 := by simpa using hi
+  have hpi : parent d i < i := parent_lt hi0
+  have := hh i (by omega) hi0
+  simp only [atParent, Vector.getElem_mk] at this
+  simp only [Array.getElem_pop, Array.getElem_swap]
+  have e1 : ¬ i = 0 := by omega
+  have e2 : ¬ i = h.size - 1 := by omega
+  have e3 : ¬ parent d i = h.size - 1 := by omega
+  simp only [e1, e2, e3, hp, if_false]
+  exact this
+
+/-- **build_heap / update_all** establish the heap order from ANY array (in particular whatever
+the heap held before, and whatever the priorities were when it was built) and keep its multiset -/
+theorem build_heap {lt : Nat → Nat → Bool} (wo : WeakOrd lt) (d : Nat) (hd : 0 < d) (keys : Array Nat) :
+    HeapA lt d (build lt d hd keys) ∧ (build lt d hd keys).Perm keys := by
+  unfold build
+  have hs := heapify_spec wo d hd (⟨keys, rfl⟩ : Vector Nat keys.size)
+  exact ⟨(heapA_toArray _).mpr hs.1, Vector.perm_iff_toArray_perm.mp hs.2⟩
+
+/-- **the top is a minimum**: no stored element is less than `top()` -/
+theorem top_minimal {lt : Nat → Nat → Bool} (wo : WeakOrd lt) (d : Nat) (h : Array Nat) (hh : HeapA lt d h)
+    (t : Nat) (ht : top? h = some t) : ∀ x ∈ h, lt x t = false := by
+  intro x hx
+  obtain ⟨i, hi, rfl⟩ := Array.mem_iff_getElem.mp hx
+  have h0 : 0 < h.size := by omega
+  have : t = h[0] := by
+    simp only [top?] at ht
+    rw [Array.getElem?_eq_getElem h0] at ht
+    exact (Option.some.inj ht).symm
+  subst this
+  exact heapOrd_top_le wo (⟨h, rfl⟩ : Vector Nat h.size) hh i hi
+
+
+/-! ### all histories -/
+
+inductive DOp where
+  | push (k : Nat) | pop | build (ks : Array Nat)
+  | reprio (lt' : Nat → Nat → Bool)     -- the external priorities change, then `update_all()`
+  | clear
+
+structure DState where
+  lt : Nat → Nat → Bool
+  heap : Array Nat
+
+/-- one operation of the model; the output is the element removed by `pop` -/
+def DState.step (d : Nat) (hd : 0 < d) (s : DState) : DOp → DState × Option Nat
+  | .push k => ({ s with heap := push s.lt d s.heap k }, none)
+  | .pop =>
+    match top? s.heap, pop s.lt d hd s.heap with
+    | some t, some h' => ({ s with heap := h' }, some t)
+    | _, _ => (s, none)                   -- empty heap: precondition violated, not executed
+  | .build ks => ({ s with heap := build s.lt d hd ks }, none)
+  | .reprio lt' => ({ lt := lt', heap := updateAll lt' d hd s.heap }, none)
+  | .clear => ({ s with heap := #[] }, none)
+
+/-- the reference multiset (a list up to permutation) -/
+def refStep (ref : List Nat) : DOp → Option Nat → List Nat
+  | .push k, _ => k :: ref
+  | .pop, some t => ref.erase t
+  | .pop, none => ref
+  | .build ks, _ => ks.toList
+  | .reprio _, _ => ref
+  | .clear, _ => []
+
+def opWO : DOp → Prop
+  | .reprio lt' => WeakOrd lt'
+  | _ => True
+
+/-- the heap is in heap order for the current comparator and stores the reference multiset -/
+def DInv (d : Nat) (s : DState) (ref : List Nat) : Prop :=
+  WeakOrd s.lt ∧ HeapA s.lt d s.heap ∧ s.heap.toList.Perm ref
+
+/-- **one step of any history**: the invariant is kept, and a `pop` removes a stored element that
+no stored element is less than (on an empty heap it is refused) -/
+theorem dary_step (d : Nat) (hd : 0 < d) (s : DState) (ref : List Nat) (op : DOp)
+    (hinv : DInv d s ref) (hop : opWO op) :
+    DInv d (s.step d hd op).1 (refStep ref op (s.step d hd op).2) ∧
+    (op = .pop → match (s.step d hd op).2 with
+      | some t => t ∈ ref ∧ ∀ x ∈ ref, s.lt x t = false
+      | none => ref = []) := by
+  obtain ⟨wo, hh, hp⟩ := hinv
+  cases op with
+  | push k =>
+    obtain ⟨h1, h2⟩ := push_heap wo d s.heap k hh
+    refine ⟨⟨wo, h1, ?_⟩, by simp⟩
+    simp only [DState.step, refStep]
+    refine h2.toList.trans ?_
+    simp only [Array.toList_push]
+    exact (List.perm_append_singleton _ _).trans (List.Perm.cons k hp)
+  | pop =>
+    by_cases hne : 0 < s.heap.size
+    · obtain ⟨h', hpop, h1, h2⟩ := pop_heap wo d hd s.heap hh hne
+      have htop : top? s.heap = some s.heap[0] := by simp [top?, Array.getElem?_eq_getElem hne]
+      have hmin := top_minimal wo d s.heap hh _ htop
+      simp only [DState.step, htop, hpop, refStep]
+      have hmem : s.heap[0] ∈ ref := hp.subset (by simp)
+      refine ⟨⟨wo, h1, ?_⟩, fun _ => ⟨hmem, fun x hx => hmin x (by
+        have := hp.symm.subset hx; simpa using this)⟩⟩
+      have h3 : (s.heap[0] :: h'.toList).Perm ref := by
+        refine (List.Perm.trans ?_ h2.toList).trans hp
+        simp only [Array.toList_push]
+        exact (List.perm_append_singleton _ _).symm
+      exact (List.perm_cons _).mp (h3.trans (List.perm_cons_erase hmem))
+    · have hemp : s.heap = #[] := by
+        apply Array.eq_empty_of_size_eq_zero; omega
+      have : ref = [] := by
+        rw [hemp] at hp; simpa using hp.symm
+      have hstep : s.step d hd .pop = (s, none) := by
+        simp only [DState.step, hemp, top?, Array.getElem?_empty]
+      rw [hstep]
+      exact ⟨⟨wo, hh, by simpa [refStep] using hp⟩, fun _ => this⟩
+  | build ks =>
+    obtain ⟨h1, h2⟩ := build_heap wo d hd ks
+    exact ⟨⟨wo, h1, h2.toList⟩, by simp⟩
+  | reprio lt' =>
+    obtain ⟨h1, h2⟩ := build_heap hop d hd s.heap
+    exact ⟨⟨hop, h1, h2.toList.trans hp⟩, by simp⟩
+  | clear =>
+    exact ⟨⟨wo, fun i hi => absurd hi (by simp [DState.step]), by simp [DState.step, refStep]⟩, by simp⟩
+
+/-- run a history, collecting states -/
+def DState.run (d : Nat) (hd : 0 < d) (s : DState) (ref : List Nat) : List DOp → DState × List Nat
+  | [] => (s, ref)
+  | op :: ops =>
+    let r := s.step d hd op
+    DState.run d hd r.1 (refStep ref op r.2) ops
+
+/-- **all histories**: after any history of push / pop / build_heap (on empty and non-empty heaps) /
+update_all with changed priorities / clear, for every arity `d ≥ 1`, the heap is in heap order for
+the current comparator and holds exactly the reference multiset (so `size()` is exact and `top()`
+is a minimum by `top_minimal`) -/
+theorem dary_history (d : Nat) (hd : 0 < d) (ops : List DOp) (s : DState) (ref : List Nat)
+    (hinv : DInv d s ref) (hops : ∀ op ∈ ops, opWO op) :
+    DInv d (s.run d hd ref ops).1 (s.run d hd ref ops).2 := by
+  induction ops generalizing s ref with
+  | nil => exact hinv
+  | cons op ops ih =>
+    simp only [DState.run]
+    apply ih
+    · exact (dary_step d hd s ref op hinv (hops op (by simp))).1
+    · intro o ho; exact hops o (by simp [ho])
+
+theorem dinv_init (d : Nat) (lt : Nat → Nat → Bool) (wo : WeakOrd lt) : DInv d ⟨lt, #[]⟩ [] :=
+  ⟨wo, fun i hi => absurd hi (by simp), by simp⟩
+
+/-- repeated `extract_top()` -/
+def drain (lt : Nat → Nat → Bool) (d : Nat) (hd : 0 < d) : Nat → Array Nat → List Nat
+  | 0, _ => []
+  | f + 1, h =>
+    match top? h, pop lt d hd h with
+    | some t, some h' => t :: drain lt d hd f h'
+    | _, _ => []
+
+/-- **draining yields the stored multiset in non-decreasing order** -/
+theorem drain_sorted {lt : Nat → Nat → Bool} (wo : WeakOrd lt) (d : Nat) (hd : 0 < d) (f : Nat) (h : Array Nat)
+    (hh : HeapA lt d h) (hf : h.size ≤ f) :
+    (drain lt d hd f h).Perm h.toList ∧ (drain lt d hd f h).Pairwise (fun a b => lt b a = false) := by
+  induction f generalizing h with
+  | zero =>
+    have : h = #[] := Array.eq_empty_of_size_eq_zero (by omega)
+    subst this; simp [drain]
+  | succ f ih =>
+    by_cases hne : 0 < h.size
+    · obtain ⟨h', hpop, h1, h2⟩ := pop_heap wo d hd h hh hne
+      have htop : top? h = some h[0] := by simp [top?, Array.getElem?_eq_getElem hne]
+      have hmin := top_minimal wo d h hh _ htop
+      have hsz : h'.size + 1 = h.size := by simpa using h2.toList.length_eq
+      obtain ⟨i1, i2⟩ := ih h' h1 (by omega)
+      simp only [drain, htop, hpop]
+      have hperm : (h[0] :: h'.toList).Perm h.toList := by
+        refine List.Perm.trans ?_ h2.toList
+        simp only [Array.toList_push]
+        exact (List.perm_append_singleton _ _).symm
+      refine ⟨(List.Perm.cons _ i1).trans hperm, ?_⟩
+      simp only [List.pairwise_cons]
+      refine ⟨?_, i2⟩
+      intro x hx
+      apply hmin x
+      have : x ∈ h.toList := hperm.subset (List.mem_cons_of_mem _ (i1.subset hx))
+      simpa using this
+    · have : h = #[] := Array.eq_empty_of_size_eq_zero (by omega)
+      subst this; simp [drain, top?]
+
+
+/-- the comparators of the harness: an external priority table, ascending or descending -/
+theorem weakOrd_prio (prio : Nat → Int) : WeakOrd (fun a b => decide (prio a < prio b)) :=
+  { irrefl := by simp, trans := by simp; omega, negTrans := by simp; omega }
+
+theorem weakOrd_prio_rev (prio : Nat → Int) : WeakOrd (fun a b => decide (prio a > prio b)) :=
+  { irrefl := by simp, trans := by simp; omega, negTrans := by simp; omega }
+
+-- non-vacuity: a ternary heap with tied priorities (keys 1,4 ↦ 0; 2,5 ↦ 1; 3 ↦ -1) satisfies the
+-- hypothesis `HeapA` of the theorems above (it is what `build` makes of #[5,4,3,2,1]; the model
+-- is executed by the driver, `decide` cannot unfold its well-founded recursions)
+example :
+    HeapA (fun a b => decide ((if a = 3 then (-1 : Int) else if a = 1 ∨ a = 4 then 0 else 1) <
+                              (if b = 3 then (-1 : Int) else if b = 1 ∨ b = 4 then 0 else 1))) 3 #[3, 4, 5, 2, 1] := by
+  intro i hi hi0
+  have : i = 1 ∨ i = 2 ∨ i = 3 ∨ i = 4 := by simp at hi; omega
+  rcases this with rfl | rfl | rfl | rfl <;> simp [atParent, parent]
+
 end TlxVerif.C13
